@@ -70,7 +70,11 @@ func MX() []*descriptorpb.FileDescriptorProto {
 		ext("f_b", 51005, descriptorpb.FieldDescriptorProto_TYPE_SINT64, "", fldOpts, true),
 		ext("e_a", 51006, descriptorpb.FieldDescriptorProto_TYPE_BOOL, "", enumOpts, false),
 		ext("m_c", 51007, descriptorpb.FieldDescriptorProto_TYPE_ENUM, color, msgOpts, false))
-	sec.P.Extension = append(sec.P.Extension, ext("n_a", 51008, descriptorpb.FieldDescriptorProto_TYPE_BYTES, "", fldOpts, false))
+	// the first extension declared inside Sec is the first one for its extendee, like m_a at file level (both have index 0
+	// within their parent: anything that orders extendees by that index alone has a tie to break)
+	sec.P.Extension = append(sec.P.Extension,
+		ext("n_o", 51009, descriptorpb.FieldDescriptorProto_TYPE_INT32, "", ".google.protobuf.OneofOptions", false),
+		ext("n_a", 51008, descriptorpb.FieldDescriptorProto_TYPE_BYTES, "", fldOpts, false))
 	rawOpt := func(m proto.Message, recs ...[]byte) {
 		var b []byte
 		for _, r := range recs {
